@@ -56,6 +56,19 @@ def inputs(tier):
             o[f"m{i}"] = {"x": 1, "y": 2, "z": 3, "u": 4, "v": 5, f"extra{i}": i}
         out.append((f"wide{k}", [o], None))
         out.append((f"wide{k}_list", [{"items": [v for v in o.values()], "first": o["m0"]}], None))
+    # members of a merge group that are equal as dicts but written in a different key order
+    for k in (2, 3):
+        keys = ["lat", "lon", "alt", "acc"]
+        o = {f"p{i}": {kk: 1.5 for kk in keys[i:] + keys[:i]} for i in range(k)}
+        out.append((f"rotated{k}", [o], None))
+        out.append((f"rotated{k}_rev", [{f"p{i}": {kk: 1.5 for kk in (keys if i % 2 == 0 else keys[::-1])} for i in range(k)}], None))
+    # overlapping similarity (a chain a~b~c with a not similar to c) next to a second, unrelated merge group
+    f7 = {f"f{i}": i for i in range(7)}
+    f10 = {f"f{i}": i for i in range(10)}
+    f14 = {f"f{i}": i for i in range(14)}
+    out.append(("chain_and_pair", [{"summary": f7, "detail": f10, "full": f14, "start": {"u": 1, "v": 2, "w": 3}, "end": {"u": 4, "v": 5, "w": 6}}], None))
+    out.append(("two_chains", [{"a0": f7, "a1": f10, "a2": f14, "b0": {f"g{i}": i for i in range(7)}, "b1": {f"g{i}": i for i in range(10)},
+                                "b2": {f"g{i}": i for i in range(14)}}], None))
     for n in range(1, len(LIT_POOL) + 1):
         out.append((f"lit{n}", [{"a": s, "b": [s]} for s in LIT_POOL[:n]], None))
     # several fields that go missing together / appear late
